@@ -9,7 +9,7 @@ import time
 
 FEATURES = "collections,boxed,allocator-api2"
 
-CHECK_RE = re.compile(r"^Check (\d+): (\S+)\s*$")
+CHECK_RE = re.compile(r"^Check (\d+): (.*?)\s*$")
 STATUS_RE = re.compile(r"^\s+- Status: (\S+)")
 DESC_RE = re.compile(r"^\s+- Description: \"(.*)\"\s*$")
 LOC_RE = re.compile(r"^\s+- Location: (.*)$")
